@@ -94,7 +94,7 @@ def C11(ctx):
     if len(per_fn) < 200 or len(purposes) < 3000:
         raise ToolError("too few purposes: %d functions, %d purposes" % (len(per_fn), len(purposes)))
     ops = {p["op"] for p in purposes}
-    if ops != {"nominal", "boundary", "wrongkind", "arity", "dangling", "wrongres", "twice", "proofthenuse"}:
+    if ops != {"nominal", "boundary", "wrongkind", "arity", "dangling", "wrongres", "cross", "twice", "proofthenuse"}:
         raise ToolError("operators missing: %s" % ops)
     ctx.sample({"purpose": purposes[0], "function": [cat[purposes[0]["f"] - 1][k] for k in ("bp", "ident")]})
     ctx.sample({"purpose": purposes[len(purposes) // 2], "function": [cat[purposes[len(purposes) // 2]["f"] - 1][k] for k in ("bp", "ident")]})
@@ -141,6 +141,8 @@ def C11(ctx):
         if p is not None:
             f = cat[p["f"] - 1]
             key = "crash:%s:%s.%s:%s:%s" % (what_kind, f["bp"], f["ident"], p["op"], p["kind"])
+            if e.get("export") and not e["export"].startswith(f["ident"]):
+                key += ":in:" + e["export"]        # the trap happened in a callee
             what = "%s.%s with %s at path %s (kind %s, variant %d, state %s, auth %s): %s" % (
                 f["bp"], f["ident"], p["op"], p["path"], p["kind"], p["k"], p["state"], p["auth"],
                 (e.get("msg") or e.get("detail") or "")[:300])
